@@ -28,15 +28,17 @@ type c20task struct {
 }
 
 type c20case struct {
-	Vars   [][2]string `json:"vars"` // name, value
-	Tasks  []c20task   `json:"tasks"`
-	Req    []string    `json:"req"`
-	BadEnv bool        `json:"bad_dotenv"` // a .env file that cannot be parsed sits next to the spokfile
+	Vars     [][2]string `json:"vars"` // name, value
+	Tasks    []c20task   `json:"tasks"`
+	Req      []string    `json:"req"`
+	BadEnv   bool        `json:"bad_dotenv"`                // a .env file that cannot be parsed sits next to the spokfile
+	Debug    bool        `json:"debug_with_json,omitempty"` // the second --json run also carries --debug (diagnostics belong on stderr)
+	OldCache bool        `json:"old_cache,omitempty"`       // a cache written by an earlier run (other digests) is already there
 }
 
 func (k c20case) key() string { b, _ := json.Marshal(k); return string(b) }
 
-var c20TaskNames = []string{"build", "test", "lint", "zeta", "alpha", "default", "deploy", "Mid", "default_x", "émile"}
+var c20TaskNames = []string{"build", "test", "lint", "zeta", "alpha", "default", "deploy", "Mid", "default_x", "émile", "_gen", "x_"}
 var c20VarNames = []string{"VERSION", "NAME", "OUT", "flag", "Zed"}
 var c20Docs = []string{" 100% of the build", " Build the thing", "Run tests  ", "  padded  ", " ünï çødé", "x", " # hash inside", " with : punctuation, and (parens)", ""}
 
@@ -104,6 +106,14 @@ func c20Gen(r *core.Rng) c20case {
 	}
 	core.Shuffle(r, k.Req)
 	k.BadEnv = r.Chance(6)
+	k.Debug = r.Chance(30)
+	k.OldCache = r.Chance(25)
+	// a command that leaves a job in the background which prints later, followed by a slow command
+	for i := range k.Tasks {
+		if k.Tasks[i].NCmd >= 2 && r.Chance(4) {
+			k.Tasks[i].UseVar[0], k.Tasks[i].UseVar[1] = "&", "z"
+		}
+	}
 	return k
 }
 
@@ -119,7 +129,7 @@ func (k c20case) varValue(name string) string {
 // cmdText returns the command as written (tpl=true) or after substitution.
 func (k c20case) cmdText(t c20task, i int, logPath string, tpl bool) string {
 	tag := ""
-	if v := t.UseVar[i]; v != "" && v != "-" && v != "+" {
+	if v := t.UseVar[i]; v != "" && v != "-" && v != "+" && v != "&" && v != "z" {
 		if tpl {
 			tag = ".{{." + v + "}}"
 		} else {
@@ -129,6 +139,12 @@ func (k c20case) cmdText(t c20task, i int, logPath string, tpl bool) string {
 	if t.UseVar[i] == "+" {
 		// 16 bytes doubled 17 times: 2 MiB and a newline on stdout, 2 MiB on stderr, built inside the shell
 		return fmt.Sprintf("printf '%%s\\n' %s.%d >> %s && s=0123456789abcdef && s=$s$s$s$s && s=$s$s$s$s && s=$s$s$s$s && s=$s$s$s$s && s=$s$s$s$s && s=$s$s$s$s && s=$s$s$s$s && s=$s$s$s$s && s=$s$s && printf '%%s\\n' \"$s\" && printf '%%s' \"$s\" >&2", c20ascii(t.Name), i, logPath)
+	}
+	if t.UseVar[i] == "&" {
+		return fmt.Sprintf("printf '%%s\\n' %s.%d >> %s; sh -c 'sleep 0.2; printf LATE; printf LATEERR >&2' & printf 'O.%s.%d'", c20ascii(t.Name), i, logPath, c20ascii(t.Name), i)
+	}
+	if t.UseVar[i] == "z" {
+		return fmt.Sprintf("printf '%%s\\n' %s.%d >> %s && sleep 0.5 && printf 'O.%s.%d' && printf 'E.%s.%d' >&2", c20ascii(t.Name), i, logPath, c20ascii(t.Name), i, c20ascii(t.Name), i)
 	}
 	if t.UseVar[i] == "-" {
 		// a command that prints nothing at all
@@ -214,6 +230,15 @@ func c20Judge(c *core.Ctx, k c20case, res *core.ShardResult) (vs []core.Violatio
 	bad := func(clause, format string, args ...any) {
 		vs = append(vs, core.Violation{Property: "C20", Clause: clause, Key: k.key(), Detail: fmt.Sprintf(format, args...) + fmt.Sprintf("\nrequest %v\nspokfile:\n%s", k.Req, text)})
 	}
+	if k.OldCache {
+		entries := map[string]string{}
+		for i, t := range k.Tasks {
+			entries[t.Name] = fmt.Sprintf("%064x", i+1)
+		}
+		b, _ := json.Marshal(entries)
+		_ = core.WriteFiles(sb.Proj, map[string]string{".spok/cache.json": string(b), ".spok/.gitignore": "*\n", ".spok/CACHEDIR.TAG": "Signature: 8a477f597d28d172789f06886806bc55"})
+		res.Count("cases_with_an_older_cache", 1)
+	}
 	if k.BadEnv {
 		// spok may refuse to run with a .env it cannot read; if it runs, what it prints must still be right
 		_ = os.WriteFile(filepath.Join(sb.Proj, ".env"), []byte("set -a\nthis is not = a valid line\n'\n"), 0o644)
@@ -249,7 +274,12 @@ func c20Judge(c *core.Ctx, k c20case, res *core.ShardResult) (vs []core.Violatio
 	// --json runs: first (everything executes), second (file-dependent tasks are skipped),
 	// third after an edit
 	checkJSON := func(round int, req []string) bool {
-		inv, log := run(append([]string{"--json"}, req...)...)
+		flags := []string{"--json"}
+		if k.Debug && round == 2 {
+			flags = append(flags, "--debug")
+			res.Count("json_runs_with_debug", 1)
+		}
+		inv, log := run(append(flags, req...)...)
 		if crashed(inv) {
 			return false
 		}
@@ -343,13 +373,28 @@ func c20Judge(c *core.Ctx, k c20case, res *core.ShardResult) (vs []core.Violatio
 			for i, cr := range r.Results {
 				wantCmd := k.cmdText(*t, i, sb.Log, false)
 				tag := ""
-				if v := t.UseVar[i]; v != "" && v != "-" && v != "+" {
+				if v := t.UseVar[i]; v != "" && v != "-" && v != "+" && v != "&" && v != "z" {
 					tag = "." + k.varValue(v)
 				}
 				wantOut := fmt.Sprintf("O.%s.%d%s \"q\" \\b\r\n\x1b[31mred\x1b[0m\a\n", c20ascii(t.Name), i, tag)
 				wantErr := fmt.Sprintf("E.%s.%d\n", c20ascii(t.Name), i)
 				if t.UseVar[i] == "-" {
 					wantOut, wantErr = "", ""
+				}
+				if t.UseVar[i] == "z" {
+					wantOut, wantErr = fmt.Sprintf("O.%s.%d", c20ascii(t.Name), i), fmt.Sprintf("E.%s.%d", c20ascii(t.Name), i)
+					res.Count("command_records_after_a_background_job", 1)
+				}
+				if t.UseVar[i] == "&" {
+					// what the job prints after the command has returned may or may not be part of that
+					// command's record; it is never part of another command's
+					wantOut, wantErr = fmt.Sprintf("O.%s.%d", c20ascii(t.Name), i), ""
+					if cr.Stdout == wantOut+"LATE" {
+						wantOut = cr.Stdout
+					}
+					if cr.Stderr == "LATEERR" {
+						wantErr = cr.Stderr
+					}
 				}
 				if t.UseVar[i] == "+" {
 					wantErr = strings.Repeat("0123456789abcdef", 1<<17)
